@@ -2,10 +2,12 @@
 
 package fp448
 
-// c14Backend reads the switch the assembly itself tests (CHECK_BMI2ADX in fp_amd64.h).
-func c14Backend() string {
-	if hasBmi2Adx {
-		return "asm-bmi2adx"
+// Read-out of the switch the assembly itself tests (CHECK_BMI2ADX in fp_amd64.h). Only this file names hasBmi2Adx.
+func init() {
+	C14ReadBackend = func() string {
+		if hasBmi2Adx {
+			return "asm-bmi2adx"
+		}
+		return "asm-legacy"
 	}
-	return "asm-legacy"
 }
